@@ -46,6 +46,8 @@ INT_LIMIT = 2 ** 31 - 1
 WORKNAME = "c18" + os.environ.get("VERIF_C18_WORK_SUFFIX", "")
 # tag printed by Repair.tla Deviation(c) -> id of the known finding (known_findings.jsonl)
 DEVIATIONS = {"QDE": "FillHolesQuadDiagonalIsExistingEdge"}
+ROUND = 40000              # records recorded and validated per round (bounded memory)
+REPORT_CAP = 60            # V.violation calls per (clause, deviation); the full counts are in the evidence
 
 
 # ------------------------------------------------------------------ input surfaces
@@ -83,6 +85,9 @@ def library():
     tet_f = [[0, 2, 1], [0, 1, 3], [1, 2, 3], [0, 3, 2]]
     tet_v = [[0, 0, 0], [4, 0, 0], [0, 4, 0], [0, 0, 4]]
     skew_v = [[0, 0, 0], [8, 0, 0], [0, 4, 0], [4, 4, 8]]
+    # a face with sides 12, 16, 20 is the longest of this one: after three halvings its longest edge
+    # EQUALS the bound 5/2 (the boundary case of "no edge longer than the bound")
+    pyth_v = [[0, 0, 0], [12, 0, 0], [0, 16, 0], [0, 0, 4]]
     oct_f = [[0, 2, 4], [2, 1, 4], [1, 3, 4], [3, 0, 4], [2, 0, 5], [1, 2, 5], [3, 1, 5], [0, 3, 5]]
     oct_v = [[4, 0, 0], [-4, 0, 0], [0, 4, 0], [0, -4, 0], [0, 0, 8], [0, 0, -8]]
     reg_v = [[4, 0, 0], [-4, 0, 0], [0, 4, 0], [0, -4, 0], [0, 0, 4], [0, 0, -4]]
@@ -106,6 +111,7 @@ def library():
     return {
         "tetrahedron": (tet_v, outward(tet_v, tet_f), True),
         "skew_tetrahedron": (skew_v, outward(skew_v, tet_f), True),
+        "pythagorean_tetrahedron": (pyth_v, outward(pyth_v, tet_f), True),
         "octahedron": (oct_v, outward(oct_v, oct_f), True),
         "regular_octahedron": (reg_v, outward(reg_v, oct_f), True),
         "cube": (cube_v, outward(cube_v, cube_f), True),
@@ -137,6 +143,25 @@ def present(name, pres):
         f = [t[r:] + t[:r] for t, r in zip(f, rs.randint(3, size=len(f)))]
         f = [f[j] for j in rs.permutation(len(f))]
     return v, f, closed
+
+
+def refined(v, f):
+    """A finer input surface: every face cut in four through one shared point per edge."""
+    v = [list(p) for p in v]
+    mid = {}
+
+    def m(a, b):
+        key = (min(a, b), max(a, b))
+        if key not in mid:
+            mid[key] = len(v)
+            v.append([(v[a][j] + v[b][j]) // 2 for j in range(3)])
+        return mid[key]
+
+    out = []
+    for a, b, c in f:
+        ab, bc, ca = m(a, b), m(b, c), m(c, a)
+        out += [[a, ab, ca], [ab, b, bc], [ca, bc, c], [ab, bc, ca]]
+    return v, out
 
 
 def rewound(t, style):
@@ -289,15 +314,14 @@ def observe(trimesh, it):
             if put_result(m.vertices, m.faces):
                 rec["rep"] = reported(m, rec["den"], normals=True)
         elif op == "subdivide":
-            # a chain: the result of the previous round is the pre-mesh of the recorded round
+            # second round: the pre-mesh is a once refined surface, built here (input construction
+            # only, independent of the code under test; Repair.tla InputSane checks it is a proper mesh)
             sel = it["sel"]
-            m = fresh(f)
             for _ in range(it["depth"] - 1):
-                m = m.subdivide()
-            s0 = snap(m.vertices)
-            if s0 is None or s0[0] != 1:
-                raise MachineryError("chained pre-mesh is not on the integer lattice")
-            rec["v0"], rec["f0"] = s0[1], face_rows(m.faces)
+                v, f = refined(v, f)
+            V = np.array(v, dtype=np.float64)
+            rec["v0"], rec["f0"] = v, f
+            m = fresh(f)
             if sel == "all_none":
                 rec["sel"], arg = list(range(len(m.faces))), None
             else:
@@ -447,8 +471,8 @@ def work_items(tier):
     fix_family("octahedron", list(subsets(8)), 1, True)
     if big:
         fix_family("cube", list(subsets(12)), 1, True)
-        fix_family("tet_and_cube", list(subsets(16)), 1, True)
-        fix_family("torus3x3", sampled(18, 30000), 11, False)
+        fix_family("tet_and_cube", sampled(16, 20000), 11, False)
+        fix_family("torus3x3", sampled(18, 20000), 11, False)
         fix_family("skew_tetrahedron", list(subsets(4)), 1, True)
     for name, cnt in (("tetrahedron", 16), ("octahedron", 60), ("cube", 220), ("tet_and_cube", 220),
                       ("torus3x3", 220), ("regular_octahedron", 30)):
@@ -512,7 +536,8 @@ def work_items(tier):
 
     # ---- subdivide_to_size: grid of bounds x iteration caps
     pieces = 5000 if big else 800
-    for name in ("tetrahedron", "skew_tetrahedron", "regular_octahedron", "cube", "sheet3x3", "tet_and_cube"):
+    for name in ("tetrahedron", "skew_tetrahedron", "pythagorean_tetrahedron", "regular_octahedron", "cube", "sheet3x3",
+                 "tet_and_cube"):
         if name == "tet_and_cube" and not big:
             continue
         k = 0
@@ -650,36 +675,49 @@ def main(argv):
         items, exhaustive = work_items(tier)
         if len(items) < 2500:
             raise MachineryError("too few inputs enumerated: %d" % len(items))
-    # heavy records first so that the pool is balanced
-    order = sorted(range(len(items)), key=lambda k: (items[k]["op"] not in ("tosize", "loop"), k))
-    res = pmap(run_chunk, [items[k] for k in order], chunk=max(8, min(200, len(items) // 96 + 1)))
-    got = sorted((c for r in res for c in r), key=lambda c: c["id"])
-    if len(got) != len(items) or any(c["id"] != k for k, c in enumerate(got)):
-        raise MachineryError("records lost")
-    skipped = [c for c in got if "skipped" in c]
-    cases = [c for c in got if "skipped" not in c]
-    byid = {c["id"]: c for c in cases}
-    # the validator's shards take every 16th record: interleave the large ones
-    slim = [{k: v for k, v in c.items() if k != "item"} for c in sorted(cases, key=lambda c: -len(c["f1"]))]
     os.environ.setdefault("JAVA_TOOL_OPTIONS", "-Xmx2g")       # 16 JVMs: keep every heap bounded
-    rejects, states, wall = tlc.validate_batches(WORKNAME, "Repair", slim, CFG, timeout=3000)
-    if states != len(cases):
-        raise MachineryError("TLC judged %d of %d records" % (states, len(cases)))
-    by_dev = {}
-    for cid, clause in sorted(rejects.items()):
-        c = byid[cid]
-        d = brief(c)
-        d["item"] = c["item"]
-        # Repair.tla prints the tag of a named deviation (decided on the input only) after the clause
-        dev = None
-        if " " in clause:
-            clause, tag = clause.split(" ", 1)
-            dev = DEVIATIONS.get(tag.strip().strip('"'))
-            if dev is None:
-                raise MachineryError("unknown deviation tag from Repair.tla: " + tag)
-            by_dev[dev] = by_dev.get(dev, 0) + 1
-        V.violation(clause, d, dev)
-    st = stats_of(cases)
+    st, by_dev, pick = {}, {}, {}
+    states, wall, nrec, nrej, nskip, reported = 0, 0.0, 0, 0, 0, {}
+    first = None
+    for lo in range(0, len(items), ROUND):
+        part = items[lo:lo + ROUND]
+        # heavy records first so that the pool is balanced
+        order = sorted(range(len(part)), key=lambda k: (part[k]["op"] not in ("tosize", "loop"), k))
+        res = pmap(run_chunk, [part[k] for k in order], chunk=max(8, min(200, len(part) // 96 + 1)))
+        got = sorted((c for r in res for c in r), key=lambda c: c["id"])
+        if len(got) != len(part) or any(c["id"] != lo + k for k, c in enumerate(got)):
+            raise MachineryError("records lost")
+        nskip += sum(1 for c in got if "skipped" in c)
+        cases = [c for c in got if "skipped" not in c]
+        byid = {c["id"]: c for c in cases}
+        # the validator's shards take every 16th record: interleave the large ones
+        slim = [{k: v for k, v in c.items() if k != "item"} for c in sorted(cases, key=lambda c: -len(c["f1"]))]
+        rejects, n, w = tlc.validate_batches(WORKNAME, "Repair", slim, CFG, timeout=3000)
+        if n != len(cases):
+            raise MachineryError("TLC judged %d of %d records" % (n, len(cases)))
+        states, wall, nrec, nrej = states + n, wall + w, nrec + len(cases), nrej + len(rejects)
+        for cid, clause in sorted(rejects.items()):
+            c = byid[cid]
+            d = brief(c)
+            d["item"] = c["item"]
+            # Repair.tla prints the tag of a named deviation (decided on the input only) after the clause
+            dev = None
+            if " " in clause:
+                clause, tag = clause.split(" ", 1)
+                dev = DEVIATIONS.get(tag.strip().strip('"'))
+                if dev is None:
+                    raise MachineryError("unknown deviation tag from Repair.tla: " + tag)
+                by_dev[dev] = by_dev.get(dev, 0) + 1
+            key = (clause, dev)
+            reported[key] = reported.get(key, 0) + 1
+            if reported[key] <= REPORT_CAP:
+                V.violation(clause, d, dev)
+        for k, v in stats_of(cases).items():
+            st[k] = st.get(k, 0) + v
+        for c in cases:
+            first = first or c
+            if c["op"] not in pick and len(c["f1"]) <= 24 and (c["op"] != "fix" or c["flips"]):
+                pick[c["op"]] = brief(c)
     if "--replay" not in argv and not V.violations:
         need = {"fix_pre_winding_broken": 500, "fix_result_differs_from_pre": 500, "fill_triangle_hole": 50,
                 "fill_two_faces_removed": 50, "fill_faces_added": 100, "subdivide_all_faces": 20,
@@ -688,22 +726,20 @@ def main(argv):
         low = {k: st.get(k, 0) for k, n in need.items() if st.get(k, 0) < n}
         if low:
             raise MachineryError("enumeration nearly empty: %s" % low)
-    pick = {}
-    for c in cases:
-        if c["op"] not in pick and len(c["f1"]) <= 24 and (c["op"] != "fix" or c["flips"]):
-            pick[c["op"]] = brief(c)
     cov = {
         "states": states, "transitions": states,
-        "traces_validated_against_impl": len(cases),
-        "records": len(cases),
+        "traces_validated_against_impl": nrec,
+        "records": nrec,
         "exercised": st,
         "exhaustive": bool(exhaustive),
         "exhaustive_scopes": exhaustive,
-        "rejected": len(rejects),
+        "rejected": nrej,
+        "rejected_by_clause_and_deviation": {"%s|%s" % (k[0], k[1] or "-"): v for k, v in sorted(reported.items())},
         "rejected_by_deviation": by_dev,
-        "to_size_results_too_large_to_validate": len(skipped),
+        "reported_violations_capped_per_clause_and_deviation": REPORT_CAP,
+        "to_size_results_too_large_to_validate": nskip,
         "tlc_wall_s": round(wall, 1),
-        "samples": list(pick.values()) or [brief(cases[0])],
+        "samples": list(pick.values()) or [brief(first)],
     }
     return V.finish("model_checking", cov, assumptions=[
         "lattice surfaces on coordinates that are multiples of four (midpoints of two rounds are lattice points); "
